@@ -208,7 +208,7 @@ func suiteSchema14(r *Rng, n int, thorough bool, o *Out) {
 					nm := r.pick(typeNames)
 					op = lst("schema", "removetype", hx(nm))
 					o.stat("op.removetype")
-					mustNoop = !s.HasType(nm)
+					mustNoop = !hasTypeIndep(s, nm) // (the schema's own list, not HasType)
 					if !mustNoop {
 						for i := range s.Types {
 							if s.Types[i].Name == nm {
@@ -230,7 +230,8 @@ func suiteSchema14(r *Rng, n int, thorough bool, o *Out) {
 					nm, a := r.pick(typeNames), r.pick(schemaNames)
 					op = lst("schema", "removeattr", hx(nm), hx(a))
 					o.stat("op.removeattr")
-					_, has := s.GetType(nm).Attrs[a]
+					tnm, _ := lookupTypeIndep(s, nm)
+					_, has := tnm.Attrs[a]
 					mustNoop = !has
 					s.RemoveAttr(nm, a)
 				case 4:
@@ -242,7 +243,8 @@ func suiteSchema14(r *Rng, n int, thorough bool, o *Out) {
 					nm, a := r.pick(typeNames), r.pick(schemaNames)
 					op = lst("schema", "removerel", hx(nm), hx(a))
 					o.stat("op.removerel")
-					_, has := s.GetType(nm).Rels[a]
+					tnm, _ := lookupTypeIndep(s, nm)
+					_, has := tnm.Rels[a]
 					mustNoop = !has
 					s.RemoveRel(nm, a)
 				default:
@@ -253,7 +255,8 @@ func suiteSchema14(r *Rng, n int, thorough bool, o *Out) {
 					}
 					op = lst("schema", "addtwoway", sxRel(rel))
 					o.stat("op.addtwoway")
-					ft, tt := s.GetType(rel.FromType), s.GetType(rel.ToType)
+					ft, _ := lookupTypeIndep(s, rel.FromType)
+					tt, _ := lookupTypeIndep(s, rel.ToType)
 					selfInv := rel.FromType == rel.ToType && rel.FromName == rel.ToName
 					if ft.Name != "" && tt.Name != "" && rel.FromName != "" && rel.ToName != "" &&
 						!fieldUsed(ft, rel.FromName) && !fieldUsed(tt, rel.ToName) && !selfInv {
@@ -284,9 +287,11 @@ func suiteSchema14(r *Rng, n int, thorough bool, o *Out) {
 				pv = "FAIL:two-way relationship with existing types and free names refused"
 			}
 			if pv == "ok" && twoWay != nil {
-				inv := twoWay.Invert()
-				a, okA := s.GetType(twoWay.FromType).Rels[twoWay.FromName]
-				b, okB := s.GetType(twoWay.ToType).Rels[twoWay.ToName]
+				inv := invertIndep(*twoWay) // the inverse as the property describes it, not Rel.Invert's
+				ta, _ := lookupTypeIndep(s, twoWay.FromType)
+				tb, _ := lookupTypeIndep(s, twoWay.ToType)
+				a, okA := ta.Rels[twoWay.FromName]
+				b, okB := tb.Rels[twoWay.ToName]
 				if !okA || !okB || a != *twoWay || b != inv {
 					pv = "FAIL:two-way relationship: sides do not hold the relationship and its inverse"
 				}
@@ -576,6 +581,8 @@ func suiteSchema16(r *Rng, n int, thorough bool, o *Out) {
 		twoWay := rel.ToName != "" && rel.FromName != ""
 		selfInv := rel.FromType == rel.ToType && rel.FromName == rel.ToName
 		switch {
+		case inv != invertIndep(rel):
+			pv = "FAIL:the inverse is not the relationship seen from its other end"
 		case inv.Invert() != rel:
 			pv = "FAIL:invert twice"
 		case nr.Normalize() != nr:
@@ -687,8 +694,10 @@ func suiteSchema16(r *Rng, n int, thorough bool, o *Out) {
 		}
 		for _, i := range opOrd {
 			if ops[i].two {
-				r1 := ops[i].rel.Normalize()
-				r2 := r1.Invert()
+				// the two halves of the pair (either order: the listing may not depend on it),
+				// written down here rather than by Normalize / Invert
+				r1 := ops[i].rel
+				r2 := invertIndep(r1)
 				e1 := s3.AddRel(r1.FromType, r1)
 				e2 := s3.AddRel(r2.FromType, r2)
 				if r1 == r2 {
@@ -707,29 +716,15 @@ func suiteSchema16(r *Rng, n int, thorough bool, o *Out) {
 		rels1 := s1.Rels()
 		rels2 := s2.Rels()
 		pv := "ok"
-		if len(s1.Check()) != 0 {
+		if !coherentIndep(s1) { // the clause's domain, by C15's own reading, not by asking Check
 			pv = "na"
 			o.stat("rels.incoherent")
 		} else {
 			o.stat("rels.coherent")
-			// every relationship represented exactly once by its normal form
-			count := map[jsonapi.Rel]int{}
-			for _, x := range rels1 {
-				count[x]++
-			}
-			want := map[jsonapi.Rel]bool{}
-			for _, t := range s1.Types {
-				for _, rel := range t.Rels {
-					want[rel.Normalize()] = true
-				}
-			}
-			for x := range want {
-				if count[x] != 1 {
-					pv = fmt.Sprintf("FAIL:relationship %s listed %d times", x.String(), count[x])
-				}
-			}
-			if len(rels1) != len(want) {
-				pv = fmt.Sprintf("FAIL:%d relationships listed, %d expected", len(rels1), len(want))
+			// every one-way relationship listed once as itself, every two-way pair once by one
+			// of its two ends, nothing else (stated without Normalize: relsListingVerdict)
+			if m := relsListingVerdict(s1, rels1); m != "" {
+				pv = "FAIL:" + m
 			}
 			// counted independently of Normalize: one entry per one-way relationship and one
 			// per two-way pair, a pair being two (type, name) ends naming each other
@@ -766,8 +761,10 @@ func suiteSchema16(r *Rng, n int, thorough bool, o *Out) {
 		}
 		for _, i := range opOrd {
 			if ops[i].two {
-				r1 := ops[i].rel.Normalize()
-				r2 := r1.Invert()
+				// the two halves of the pair (either order: the listing may not depend on it),
+				// written down here rather than by Normalize / Invert
+				r1 := ops[i].rel
+				r2 := invertIndep(r1)
 				self := r1 == r2
 				r1.FromOne, r2.FromOne = false, false
 				e1 := s4.AddRel(r1.FromType, r1)
@@ -790,7 +787,7 @@ func suiteSchema16(r *Rng, n int, thorough bool, o *Out) {
 		}
 		rels4 := s4.Rels()
 		pv4 := "na"
-		if all4 && len(s4.Check()) == 0 {
+		if all4 && coherentIndep(s4) {
 			pv4 = "ok"
 			o.stat("rels.struct-like")
 			ends4 := countEnds(s4)
